@@ -106,7 +106,7 @@ def plan(tier, seed):
     # small image: the Toeplitz kernel is accumulated over every sample
     for i in range(1 if quick else 4):
         g_ = int(pick(rng, [48, 64]))
-        M = int(pick(rng, [(1 << 20) + 77777, 1572864 + 5, (1 << 21) + 11]))
+        M = int(pick(rng, [(1 << 20) + 400003, 1572864 + 5, (1 << 21) + 600011]))
         d = {"op": "NUFFT", "ishape": [g_, g_], "nd": 2, "pts": [M], "ccls": "inside",
              "oversamp": 1.25, "width": 4, "toeplitz": True, "aseed": int(rng.integers(1 << 30))}
         d["oshape"] = [M]
@@ -185,6 +185,9 @@ def run_one(case):
             # (no matrix for a million samples: for coordinates drawn uniformly over the field
             # of view E^H E is close to (M / N) I)
             opn = 1.3 * float(np.sqrt(coord.shape[0] / N_))
+            # (with a million uniformly spread samples the two sides agree to a few 1e-3 on
+            # the unchanged tree; 2 % of ||A^H A x|| is asked for, far inside the generic bound)
+            tol = 0.02
     else:
         tol = 1e-10
     single = (not toep) and sum(case["rs"]) % 6 == 0 and not case.get("force_double")
